@@ -155,7 +155,12 @@ class InstructionListBuilder:
             raise Untranslatable(f"E6: {cls.name} block is {blk.shape[0]}x{blk.shape[0]} but {len(pos)} modes are given")
         return f"{cls.name}({', '.join(str(a) for a in args)}) on {pos}", embed(blk, pos, self.dim)
 
-    def run_block(self, stmts: List[ast.stmt], list_name: str = "instructions") -> Optional[sp.Matrix]:
+    def run_block(self, stmts: List[ast.stmt], list_name: Optional[str] = None) -> Optional[sp.Matrix]:
+        if list_name is None:
+            # the list the builder fills: the local bound to an empty list literal (whatever it is called)
+            names = [a.targets[0].id for a in ast.walk(self.fn.node) if isinstance(a, ast.Assign) and len(a.targets) == 1
+                     and isinstance(a.targets[0], ast.Name) and isinstance(a.value, ast.List) and not a.value.elts]
+            list_name = names[0] if names else "instructions"
         for s in stmts:
             if isinstance(s, ast.Expr) and isinstance(s.value, ast.Constant):
                 continue
